@@ -732,7 +732,7 @@ def t_dep_instancecheck():
 # --------------------------------------------------------------------------------------------------
 # C14: types passed as arguments
 
-from .universe import TYPING_ALIAS  # noqa: E402
+from .universe import TUPLE, TYPING_ALIAS  # noqa: E402
 
 MKTYPE = z3.Function("type_alias_of", TyS, TyS)  # type[X]
 ANYT = z3.Const("typing_Any", TyS)
@@ -746,7 +746,7 @@ def mktype_axioms():
     return [
         z3.ForAll([x], z3.And(kind(MKTYPE(x)) == K["Alias"], base(MKTYPE(x)) == TYPE, nargs(MKTYPE(x)) == 1, arg(MKTYPE(x), 0) == x, z3.Not(TYPING_ALIAS(MKTYPE(x)))), patterns=[MKTYPE(x)]),
         kind(ANYT) == K["Class"],
-        ANYT != OBJECT,
+        z3.Distinct(ANYT, OBJECT, TYPE, TUPLE),
     ]
 
 
@@ -851,3 +851,39 @@ def t_type_alias_rows():
         I.require(TO(a, OBJECT) == LESS, "lemma.type_alias_is_more_specific_than_object")
 
     return w, thunk, {"uses_lemmas": ["subclasscheck/alias_covariant", "typeorder/alias_argwise", "typeorder/alias_origin", "typeorder/class_fragment", "Order.merge"], "timeout_ms": 10000}
+
+
+# --------------------------------------------------------------------------------------------------
+# C15: the observers of a Union / Intersection do not depend on the order of its members
+
+PERM_H = """
+def perm_invariant(u1, u2, other):
+    assert typeorder(u1, other) is typeorder(u2, other)
+    assert typeorder(other, u1) is typeorder(other, u2)
+    assert subclasscheck(other, u1) == subclasscheck(other, u2)
+"""
+
+
+def t_perm_invariant(k):
+    def build():
+        w = MroWorld(unfold=1, sc_unfold=1)
+        u1, u2 = _pair_consts()
+        other = TyV(z3.Const("t3", TyS))
+
+        def thunk(I):
+            I.assume(kind(u1.t) == K[k])
+            I.assume(kind(u2.t) == K[k])
+            I.assume(is_kind(other.t, ["Class", "Alias"]))  # a type without an order hook of its own
+            x = z3.Const("x", TyS)
+            i, j = z3.Ints("i j")
+            # same members, any order / multiplicity (skolemised: every member of one occurs somewhere in the other)
+            p12 = z3.Function("p12", z3.IntSort(), z3.IntSort())
+            p21 = z3.Function("p21", z3.IntSort(), z3.IntSort())
+            I.assume(z3.ForAll([i], z3.Implies(z3.And(0 <= i, i < nargs(u1.t)), z3.And(0 <= p12(i), p12(i) < nargs(u2.t), arg(u2.t, p12(i)) == arg(u1.t, i))), patterns=[arg(u1.t, i)]))
+            I.assume(z3.ForAll([j], z3.Implies(z3.And(0 <= j, j < nargs(u2.t)), z3.And(0 <= p21(j), p21(j) < nargs(u1.t), arg(u1.t, p21(j)) == arg(u2.t, j))), patterns=[arg(u2.t, j)]))
+            I.assume(z3.And(u1.t != other.t, u2.t != other.t))
+            harness(PERM_H, "mro")(I, u1, u2, other)
+
+        return w, thunk, {"kinds": [k, k], "clause": "members_order_irrelevant", "timeout_ms": TIMEOUT_MS, "retry_factor": 1, "fail_fast": True}
+
+    return build
